@@ -523,6 +523,10 @@ func parsePackHeader(rb []byte, index int) int {
 	// skip stuffing
 	l := int(rb[i] & 0x7)
 	i += 1 + l
+	if len(rb) < i {
+		// the stuffing bytes are not all there yet, wait for the next rtp packet
+		return -1
+	}
 
 	return i - index
 }
